@@ -125,6 +125,37 @@ func (w *world) customizeCached(name string) interface{} {
 
 func (w *world) close() { w.sim.Close(); w.hook.Close() }
 
+// sortedRevLister lists ControllerRevisions in name order. The real lister iterates a Go map, and
+// which of two revisions with a duplicate claim keeps it depends on that order; fixing the order makes
+// a scenario replayable (the model processes revisions in the same order).
+type sortedRevLister struct{ mclisters.ControllerRevisionLister }
+
+type sortedRevNsLister struct {
+	mclisters.ControllerRevisionNamespaceLister
+}
+
+func sortRevs(rs []*v1alpha1.ControllerRevision) []*v1alpha1.ControllerRevision {
+	sort.Slice(rs, func(i, j int) bool {
+		if rs[i].Namespace != rs[j].Namespace {
+			return rs[i].Namespace < rs[j].Namespace
+		}
+		return rs[i].Name < rs[j].Name
+	})
+	return rs
+}
+
+func (l sortedRevLister) List(sel labels.Selector) ([]*v1alpha1.ControllerRevision, error) {
+	rs, err := l.ControllerRevisionLister.List(sel)
+	return sortRevs(rs), err
+}
+func (l sortedRevLister) ControllerRevisions(ns string) mclisters.ControllerRevisionNamespaceLister {
+	return sortedRevNsLister{l.ControllerRevisionLister.ControllerRevisions(ns)}
+}
+func (l sortedRevNsLister) List(sel labels.Selector) ([]*v1alpha1.ControllerRevision, error) {
+	rs, err := l.ControllerRevisionNamespaceLister.List(sel)
+	return sortRevs(rs), err
+}
+
 func simDefs(cfg scfg) []vs.ResourceDef {
 	defs := []vs.ResourceDef{
 		{Group: parentGroup, Version: "v1", Resource: "things", Kind: "Thing", Namespaced: cfg.ParentNamespaced, HasStatus: cfg.ParentHasStatus},
@@ -293,7 +324,7 @@ func newWorld(cfg scfg) *world {
 		parentInformer: parentInformer,
 		parentSelector: parentSelector,
 		parentResource: parentClient.APIResource,
-		revisionLister: mclisters.NewControllerRevisionLister(w.revIdx),
+		revisionLister: sortedRevLister{mclisters.NewControllerRevisionLister(w.revIdx)},
 		updateStrategy: us,
 		queue:          w.q,
 		numWorkers:     1,
